@@ -181,6 +181,20 @@ func c19Handshakes(u *vfUnit) {
 			c19Try(u, fmt.Sprintf("version=%d/ext=%v", v, withExt), p.Frame(), false, v == 3, p.Exts)
 		}
 	}
+	// the version number is what counts, whatever the extension list claims about versions
+	// (names other protocols and later drafts use: "versions", "supported", "newline", "vendor-id" ...)
+	claims := [][][2]string{{{"versions", "3"}}, {{"versions", "2,3,4,5,6"}}, {{"versions", "3,4,5,6"}}, {{"version", "3"}}, {{"supported-versions", "3"}}, {{"3", "3"}},
+		{{"supported", "\x00\x00\x00\x03"}}, {{"vendor-id", "x"}, {"versions", "3"}}, {{"newline", "\n"}, {"versions", "13"}}}
+	for _, v := range []uint32{0, 1, 2, 4, 5, 6, 1 << 31, 1<<32 - 1} {
+		for ci, cl := range claims {
+			p := vfPkt{Type: rfVersion, Version: v, Exts: cl}
+			c19Try(u, fmt.Sprintf("version=%d/claim=%d", v, ci), p.Frame(), false, false, cl)
+		}
+	}
+	for ci, cl := range claims {
+		p := vfPkt{Type: rfVersion, Version: 3, Exts: cl}
+		c19Try(u, fmt.Sprintf("version=3/claim=%d", ci), p.Frame(), false, true, cl)
+	}
 	// wrong type carrying a well-formed version-3 body
 	body := vfPkt{Type: rfVersion, Version: 3, Exts: exts}.Body()
 	for t := 0; t < 256; t++ {
